@@ -3,7 +3,7 @@ CONSTANTS
   MaxLen = 7
   MaxDepth = 3
   Conds = {"T", "F"}
-  Kinds = {"if", "elif", "ifdef", "else", "endif", "text"}
+  Kinds = {"if", "elif", "ifdef", "else", "endif", "text", "noise"}
   MinDump = 7
 INVARIANT Refines
 INVARIANT ClosedNormal
